@@ -298,12 +298,19 @@ func (mbox *MailboxView) Fetch(w *imapserver.FetchWriter, numSet imap.NumSet, op
 			return
 		}
 
+		// A message addressed by UID may not have been announced to the
+		// client yet: it has no sequence number in the client's view
+		clientSeqNum := mbox.tracker.EncodeSeqNum(seqNum)
+		if clientSeqNum == 0 {
+			return
+		}
+
 		if markSeen {
 			msg.flags[canonicalFlag(imap.FlagSeen)] = struct{}{}
 			mbox.Mailbox.tracker.QueueMessageFlags(seqNum, msg.uid, msg.flagList(), nil)
 		}
 
-		respWriter := w.CreateMessage(mbox.tracker.EncodeSeqNum(seqNum))
+		respWriter := w.CreateMessage(clientSeqNum)
 		err = msg.fetch(respWriter, options)
 	})
 	return err
